@@ -540,6 +540,12 @@ TrACall ==
                   \* C12: wait() runs every thread-local system (exactly once per wait)
                   !.c12 = @ /\ ((e.op = "wait" /\ ~asy.poisoned /\ e.out = "ok") =>
                                   \A x \in ToSet(tls[TopB]) : st[x] = "done" /\ runs[x] = asy.tlbase[x] + 1),
+                  \* C04: a dispatch completed by wait() has run every system once - the ordinary ones once per issued
+                  \* dispatch, the thread-local ones once in this wait(), whatever the caller asked in between
+                  \* (running(), world(), wait_without_tl() join the background job, they do not stand for wait())
+                  !.c04 = @ /\ ((e.op = "wait" /\ ~asy.poisoned /\ e.out = "ok") =>
+                                  /\ AllComplete
+                                  /\ \A x \in ToSet(tls[TopB]) : runs[x] = asy.tlbase[x] + 1),
                   \* C13: AsyncDispatcher::setup reaches every system (when the setup hooks are being logged)
                   !.c13 = @ /\ ((e.op = "setup" /\ e.out = "ok" /\ e.setuplog) => \A x \in Live13 : nset[x] = 1),
                   !.c15 = @ /\
